@@ -281,6 +281,11 @@ impl Field {
         //# treated as malformed.
 
         if name[0] != b':' {
+            // `HeaderName` lets a double quote through, which is not a token character
+            // https://www.rfc-editor.org/rfc/rfc9110#section-5.6.2
+            if name.contains(&b'"') {
+                return Err(HeaderError::invalid_name(name));
+            }
             return Ok(Field::Header((
                 HeaderName::from_lowercase(name).map_err(|_| HeaderError::invalid_name(name))?,
                 HeaderValue::from_bytes(value.as_ref())
